@@ -51,6 +51,20 @@ pub fn stub_main() -> ! {
             }
             "write" => match arg {
                 "none" => {}
+                "partial" => {
+                    let _ = std::io::stdout().write_all(b"pub mod bind_groups {\n    #[derive(Debug)]\n");
+                    let _ = std::io::stdout().flush();
+                }
+                "half" => {
+                    let real = std::env::var("VERIF_REAL_RUSTFMT").unwrap_or_else(|_| "rustfmt".into());
+                    if let Ok(mut ch) = Command::new(real).arg("--emit=stdout").stdin(Stdio::piped()).stdout(Stdio::piped()).stderr(Stdio::null()).spawn() {
+                        let _ = ch.stdin.take().map(|mut s| s.write_all(&input));
+                        if let Ok(o) = ch.wait_with_output() {
+                            let _ = std::io::stdout().write_all(&o.stdout[..o.stdout.len() / 2]);
+                            let _ = std::io::stdout().flush();
+                        }
+                    }
+                }
                 "real" => {
                     let real = std::env::var("VERIF_REAL_RUSTFMT").unwrap_or_else(|_| "rustfmt".into());
                     if let Ok(mut ch) = Command::new(real).arg("--emit=stdout").stdin(Stdio::piped()).stdout(Stdio::piped()).stderr(Stdio::null()).spawn() {
@@ -240,7 +254,7 @@ fn run_scenario(env: &Env, sc: &Scenario, pad: usize, idx: usize) -> Result<Valu
 
 pub fn scenarios(thorough: bool) -> Vec<Scenario> {
     let mut v = vec![];
-    let sizes: Vec<usize> = if thorough { vec![0, 65535, 65536, 65537, 300_000] } else { vec![0, 65537] };
+    let sizes: Vec<usize> = if thorough { vec![0, 65535, 65536, 65537, 300_000] } else { vec![0, 65536, 65537] };
     for &size in &sizes {
         let mut add = |key: &str, script: Option<&str>, path_kind: &'static str, order: &'static str, fault: bool| {
             v.push(Scenario { key: format!("{key}|size={size}|order={order}"), script: script.map(|s| s.to_string()), path_kind, order, size, fault });
@@ -262,6 +276,13 @@ pub fn scenarios(thorough: bool) -> Vec<Scenario> {
         add("read-all-sigsegv", Some("read:all;kill:11"), "stub", "default", true);
         add("read-all-exit0-nothing", Some("read:all;exit:0"), "stub", "default", true);
         add("read-all-sleep-exit0-nothing", Some("read:all;sleep:100;exit:0"), "stub", "default", true);
+        add("partial-output-sigkill", Some("read:all;write:partial;kill:9"), "stub", "default", true);
+        add("partial-output-sigterm", Some("read:all;write:partial;kill:15"), "stub", "default", true);
+        add("partial-output-exit1", Some("read:all;write:partial;exit:1"), "stub", "default", true);
+        add("half-output-sigkill", Some("read:all;write:half;kill:9"), "stub", "default", true);
+        add("half-output-sigsegv", Some("read:all;write:half;kill:11"), "stub", "default", true);
+        add("partial-output-without-reading-sigkill", Some("write:partial;kill:9"), "stub", "default", true);
+        add("partial-output-without-reading-exit1", Some("write:partial;exit:1"), "stub", "child-first", true);
         add("slow-genuine", Some("read:all;sleep:300;write:real;exit:0"), "stub", "default", false);
         add("genuine-via-stub", Some("read:all;write:real;exit:0"), "stub", "default", false);
         if thorough {
@@ -369,7 +390,7 @@ pub fn run(tier: &str) -> i32 {
     rep.set("token_string_base_bytes", json!(base));
     rep.sample(json!({"scenario": scs[3].key, "script": scs[3].script}));
     rep.sample(json!({"scenario": scs[scs.len() - 1].key, "script": scs[scs.len() - 1].script}));
-    rep.rule = format!("{} formatter scenarios = behaviours {{genuine, absent, not executable, read all->exit 1/3, exit 0/1 without reading, killed before reading, close stdin early, read 1/100/65536 bytes->exit 1, read all->SIGKILL/SIGSEGV/SIGTERM, read all->exit 0 printing nothing (immediately / after a delay), slow genuine, genuine then exit 1}} x token-string sizes {:?} (exact, by padding a comment of the embedded source) x order {{default race, formatter terminated before the parent's write (ordering hook waits for the zombie)}}; plus formatter on vs off on {} program/configuration pairs with the genuine rustfmt. Oracle: always Ok, no panic, no hang (20 s cap), returned text token-equal to the unformatted program (a trailing comma before a closing delimiter is not a token difference). A case is non-trivial when the child produced a verdict.", scs.len(), if thorough { vec![1400, 65535, 65536, 65537, 300000] } else { vec![1400, 65537] }, items.len());
+    rep.rule = format!("{} formatter scenarios = behaviours {{genuine, absent, not executable, read all->exit 1/3, exit 0/1 without reading, killed before reading, close stdin early, read 1/100/65536 bytes->exit 1, read all->SIGKILL/SIGSEGV/SIGTERM, read all->exit 0 printing nothing (immediately / after a delay), partial or half of the formatted output followed by SIGKILL/SIGTERM/SIGSEGV/exit 1, slow genuine, genuine then exit 1}} x token-string sizes {:?} (exact, by padding a comment of the embedded source) x order {{default race, formatter terminated before the parent's write (ordering hook waits for the zombie)}}; plus formatter on vs off on {} program/configuration pairs with the genuine rustfmt. Oracle: always Ok, no panic, no hang (20 s cap), returned text token-equal to the unformatted program (a trailing comma before a closing delimiter is not a token difference). A case is non-trivial when the child produced a verdict.", scs.len(), if thorough { vec![1400, 65535, 65536, 65537, 300000] } else { vec![1400, 65537] }, items.len());
     rep.assumptions.push("a genuine rustfmt is on PATH".into());
     rep.finish()
 }
